@@ -50,11 +50,14 @@ type Result struct {
 	Sample     []string          `json:"sample,omitempty"`
 	PassSeq    []string          `json:"passseq,omitempty"`
 	SitePass   map[string]int    `json:"sitepass,omitempty"`
+	EvPass     map[string]int    `json:"evpass,omitempty"`
 	Info       map[string]string `json:"info,omitempty"`
 	SitesHit   int               `json:"sites_hit,omitempty"`
 	RtDraws    uint64            `json:"rt_draws,omitempty"`
+	Spec       *k.Spec           `json:"spec,omitempty"` // echoed by the driver to later plan stages
 }
 
+// SpecOf is set by the driver when results are fed back to a later plan stage.
 type Run struct {
 	W    *k.World
 	Spec *k.Spec
